@@ -30,6 +30,15 @@ TRUSTED_BASE = [
 PARTIAL = []
 ASSUMPTIONS = ["detrend off (False / None / class default), scale_by_freq off (False / None / 0) as the property states; "
                "the sampling frequency is varied (0.01, 1, 1024): with scaling off the result does not depend on it",
+               "flag-spelling cases: 'off' is also written as numpy.False_, numpy.bool_(0), the result of a comparison, an element "
+               "of a boolean array, 0, 0.0, numpy.int64(0), numpy.float64(0), a 0-d boolean array (and None / False): function: both "
+               "flags; Periodogram / FourierSpectrum: scale_by_freq (constructor, or built with True and switched off by attribute "
+               "assignment; None is not generated there), detrend only as None (omitted / constructor / attribute: the one 'off' "
+               "value the classes document; the setter rejects False and 0).  Each spelling x route was measured on the unchanged "
+               "code to return the bit-identical array of the literal spelling, and that (tolerance 0) is what the oracle demands "
+               "in addition to the definition.  'On' spellings (True, 'mean', 1, numpy.True_) are outside the statement "
+               "(ruling 0.6 (vi)) and never generated; the sampling frequency is also given as int / numpy.int64 / float32 / float64, and "
+               "on a fifth of these cases the options are passed positionally in the order of the documented signatures",
                "class calls on 2-D data pass NFFT explicitly (the class default is the total number of samples, not the "
                "number of rows)"]
 RULE = ("random data classes (noise, constant, integer, integer dtype, Python list, large dynamic range, tone, "
@@ -44,7 +53,13 @@ RULE = ("random data classes (noise, constant, integer, integer dtype, Python li
         "(thorough: ..2048), NFFT in {N, N+1, 2N-1, 2N, 2^k, 4N}; hdr-int: integer dtype / list, 10^e (+-1 at Nyquist or DC) plus a "
         "1,0,-1,0 pattern, e = 6..14; overall amplitudes 1, 2^-30, 1e-100, 1e100; real and complex; function, class in its four "
         "calling forms, 2-D with unrelated columns of size 1e-12 .. 1e7 beside them (all four containers / layouts), and "
-        "Wiener-Khinchin with lines down to 1e-6); EVERY func / class / 2-D case, old and new, is also compared bin by bin with "
+        "Wiener-Khinchin with lines down to 1e-6); flag-spelling cases (tag flag-spelling-case; 149 per quick run, 298 per thorough "
+        "round): 11 spellings of 'off' for detrend and scale_by_freq (ASSUMPTIONS) in changing pairs x function 1-D / function 2-D / "
+        "Periodogram (.psd, P(), run()) / FourierSpectrum.periodogram() / 2-D class, flag through the constructor or the attribute, on "
+        "records whose mean is far from zero (data classes offset: noise or a tone on a constant of 5 / 30 / 1000 standard deviations, "
+        "amplitudes 1, 2^-20, 2^12; counts: Poisson counts of mean 3 / 50 / 1000 as integer dtype, integer-valued floats, complex, "
+        "or a Python list of ints (counts-list); const; and the older classes), real and complex, N = 1..48 (96) and 64, 100, 128, all "
+        "window names in turn, every NFFT spelling: the definition at every bin AND bit-identity with the literal spelling; EVERY func / class / 2-D case, old and new, is also compared bin by bin with "
         "the extended-precision definition on the bin's own scale (TRUSTED_BASE; of the 4099-point records one per thorough round); non-trivial = N >= 2 and non-zero data; "
         "distinct = distinct (kind, shape, NFFT, NFFT spelling, window, data class, api, real/complex, data hash)")
 
@@ -52,6 +67,44 @@ _DIRECT_MAX = 70000          # N*NFFT up to which the reference is the DFT sum w
 _MODEL_MAX_N = 600           # the list-based Lean model is too slow beyond this record length
 _DETREND = {"False": False, "None": None}
 _SBF = {"False": False, "None": None, "0": 0}
+# Spellings of a flag that is OFF.  The property says "(no detrending, no frequency scaling)"; it does not say that the two
+# flags are written as the Python literal False.  A boolean that comes out of numerical code is a numpy.bool_ (result of a
+# comparison, element of a boolean array), one read from an option table / .npz file is a numpy scalar or a 0-d array, one
+# read from a config file is 0 or 0.0.  Every spelling below was MEASURED on the unchanged code for every route it is
+# generated for (function: detrend and scale_by_freq; class / FourierSpectrum: scale_by_freq through the constructor or by
+# attribute assignment; detrend of the class only as None, the one "off" value the class documents and its setter accepts):
+# the result is bit-identical to the literal spelling (the unchanged code tests `detrend == True` and `scale_by_freq is True`).
+# "On" spellings (True, 'mean', 1, numpy.True_) are outside C01's statement and are never generated (DESIGN 0.6 (vi)).
+_OFF = ["False", "None", "0", "np.False_", "np.bool_(0)", "0.0", "cmp", "elem", "np.int64(0)", "np.float64(0)", "arr0d"]
+_OFF_CLASS = [s_ for s_ in _OFF if s_ != "None"]      # scale_by_freq of the classes (None: not documented there, not generated)
+
+
+def _flag(name):
+    """the object passed for a flag that is off, spelled as `name` (built afresh for every call)"""
+    if name in _SBF:
+        return _SBF[name]
+    if name == "np.False_":
+        return np.False_
+    if name == "np.bool_(0)":
+        return np.bool_(0)
+    if name == "0.0":
+        return 0.0
+    if name == "cmp":
+        return (np.array([1]) > 2)[0]                # result of a comparison
+    if name == "elem":
+        return np.array([True, False, True])[1]      # one entry of a boolean table of run options
+    if name == "np.int64(0)":
+        return np.int64(0)
+    if name == "np.float64(0)":
+        return np.float64(0.0)
+    if name == "arr0d":
+        return np.array(False)                       # what numpy.load returns for a flag stored in an .npz file
+    raise ValueError("unknown flag spelling %r" % (name,))
+
+
+def _flag_repr(name):
+    v = _flag(name)
+    return "%s [%s.%s]" % (name, type(v).__module__, type(v).__name__)
 _worst = [0.0]               # largest (error / tolerance) ratio seen by the oracle (diagnostics only)
 
 
@@ -226,7 +279,8 @@ def _key(p):
     x = np.asarray(p["x"])
     return "%s|%s|%s|%s|%s|%d|%s" % (x.shape, p.get("nfft"), p.get("window"), p.get("dkind"),
                                      np.iscomplexobj(x), hash(x.tobytes()) & 0xFFFFFF,
-                                     "/".join(str(p.get(k, "")) for k in ("nfft_arg", "api", "form", "method", "ygiven")))
+                                     "/".join(str(p.get(k, "")) for k in ("nfft_arg", "api", "form", "method", "ygiven", "detrend", "sbf",
+                                                                              "sbf_route", "det_route", "sampling_type", "argstyle")))
 
 
 def _nontrivial(p):
@@ -246,6 +300,16 @@ def _opt_tags(p):
         t.append("scale_by_freq:" + p["sbf"])
     if p.get("call"):
         t.append("class-call:" + p["call"])
+    if p.get("sbf_route"):
+        t.append("scale_by_freq-route:" + p["sbf_route"])
+    if p.get("det_route"):
+        t.append("class-detrend:None(%s)" % p["det_route"])
+    if p.get("sampling_type"):
+        t.append("sampling-type:" + p["sampling_type"])
+    if p.get("argstyle"):
+        t.append("args:positional")
+    if p.get("flagcase"):
+        t.append("flag-spelling-case")
     if p.get("perbin", 1) == 0:
         t.append("perbin:off(cost)")
     if p.get("nomodel"):
@@ -280,16 +344,38 @@ def _nfft_kw(p):
 
 
 def _sampling_kw(p):
-    return {"sampling": p["sampling"]} if "sampling" in p else {}
+    if "sampling" not in p:
+        return {}
+    s_ = p["sampling"]
+    t = p.get("sampling_type")            # the same number as a Python int / numpy scalar (scaling is off: no influence)
+    if t:
+        s_ = {"int": int, "np.int64": np.int64, "np.float32": np.float32, "np.float64": np.float64}[t](s_)
+    return {"sampling": s_}
+
+
+def _inp(p):
+    """the data in the container the case asks for"""
+    if p.get("dkind") == "counts-list":
+        return [int(v) for v in np.asarray(p["x"])]          # Python list of Python ints (event counts)
+    return as_input(p["x"], p["dkind"])
+
+
+def _call_func(sp, x, p, kw):
+    """speriodogram with the options as keywords, or -- argstyle 'pos' -- in the order of the documented signature
+    speriodogram(x, NFFT, detrend, sampling, scale_by_freq, window)"""
+    det = _flag(p.get("detrend", "False"))
+    sbf = _flag(p.get("sbf", "False"))
+    if p.get("argstyle") == "pos":
+        return sp.speriodogram(x, kw.get("NFFT"), det, kw.get("sampling", 1.0), sbf, p["window"])
+    return sp.speriodogram(x, detrend=det, scale_by_freq=sbf, window=p["window"], **kw)
 
 
 def impl_func(p):
     sp = _spectrum()
-    x = as_input(p["x"], p["dkind"])
+    x = _inp(p)
     kw = dict(_nfft_kw(p))
     kw.update(_sampling_kw(p))
-    r = sp.speriodogram(x, detrend=_DETREND[p.get("detrend", "False")], scale_by_freq=_SBF[p.get("sbf", "False")],
-                        window=p["window"], **kw)
+    r = _call_func(sp, x, p, kw)
     return [np.asarray(r)]
 
 
@@ -298,11 +384,28 @@ def _class_psd(p, x):
     kw = dict(_nfft_kw(p))
     kw.update(_sampling_kw(p))
     call = p.get("call")
+    # scaling off: through the constructor (default: the literal False), or -- route 'attr' -- the object is built with scaling ON
+    # (given explicitly: Periodogram's default is False, FourierSpectrum's True, and the setter ignores an assignment that
+    # compares equal to the current value) and the flag is switched off by assignment before anything is computed
+    route = p.get("sbf_route", "ctor")
+    kw["scale_by_freq"] = _flag(p.get("sbf", "False")) if route == "ctor" else True
+    # detrending off: not mentioned (default), or None given to the constructor, or None assigned to the attribute
+    if p.get("det_route") == "ctor":
+        kw["detrend"] = None
+    if p.get("argstyle") == "pos":
+        # the documented orders: Periodogram(data, sampling, window, NFFT, scale_by_freq, detrend),
+        #                        FourierSpectrum(data, sampling, window, NFFT, detrend, scale_by_freq)
+        a = [x, kw.get("sampling", 1.0), p["window"], kw.get("NFFT")]
+        P = sp.FourierSpectrum(*(a + [None, kw["scale_by_freq"]])) if call == "alias" else sp.Periodogram(*(a + [kw["scale_by_freq"], None]))
+    else:
+        P = (sp.FourierSpectrum if call == "alias" else sp.Periodogram)(x, window=p["window"], **kw)
+    if route == "attr":
+        P.scale_by_freq = _flag(p.get("sbf", "False"))
+    if p.get("det_route") == "attr":
+        P.detrend = None
     if call == "alias":
-        P = sp.FourierSpectrum(x, window=p["window"], scale_by_freq=False, **kw)
         P.periodogram()
     else:
-        P = sp.Periodogram(x, window=p["window"], scale_by_freq=False, **kw)
         if call == "call":
             P()
         elif call == "run":
@@ -311,7 +414,7 @@ def _class_psd(p, x):
 
 
 def impl_class(p):
-    return [_class_psd(p, as_input(p["x"], p["dkind"]))]
+    return [_class_psd(p, _inp(p))]
 
 
 def model_1d(p):
@@ -378,12 +481,62 @@ def _oracle_vals(p, got, label):
     return _check_column(x, _win(len(x), p["window"]), p["nfft"], got, label, _desc(p), perbin=p.get("perbin", 1) != 0)
 
 
+_SPELL_KEYS = ("detrend", "sbf", "sbf_route", "det_route", "sampling_type", "argstyle")
+
+
+def _spelled(p):
+    return any(p.get(k) not in (None, "False") for k in _SPELL_KEYS)
+
+
+def _same_as_literal(p, got, impl, label):
+    """a case that writes 'off' (or the sampling frequency) in another way must return EXACTLY what the literal spelling
+    detrend=False / scale_by_freq=False (class: scale_by_freq=False to the constructor, detrend not mentioned) returns for the
+    same data: tolerance 0, which is what the unchanged code achieves (same code path, deterministic arithmetic; measured on
+    every spelling x route generated here)"""
+    if not _spelled(p):
+        return []
+    lit = impl({k: v for k, v in p.items() if k not in _SPELL_KEYS})
+    hows = []
+    if "detrend" in p:
+        hows.append("detrend=" + _flag_repr(p["detrend"]))
+    if "sbf" in p:
+        hows.append("scale_by_freq=" + _flag_repr(p["sbf"]) + (" set by attribute" if p.get("sbf_route") == "attr" else ""))
+    if p.get("det_route"):
+        hows.append("detrend=None (%s)" % p["det_route"])
+    if p.get("sampling_type"):
+        hows.append("sampling as " + str(p["sampling_type"]))
+    if p.get("argstyle"):
+        hows.append("options given positionally")
+    how = ", ".join(hows)
+    if len(lit) != len(got):
+        return ["%s with %s returns %d arrays, with the literal spelling (False) %d" % (label, how, len(got), len(lit))]
+    for j, (a, b) in enumerate(zip(got, lit)):
+        a = np.asarray(a)
+        b = np.asarray(b)
+        if a.shape != b.shape or not np.array_equal(a, b, equal_nan=True):
+            if a.shape == b.shape and a.size:
+                d = np.abs(a.astype(complex) - b.astype(complex))
+                k = int(np.nanargmax(d)) if np.any(np.isfinite(d)) else 0
+                det = "largest difference %.3e at bin %d (%.6g against %.6g)" % (float(d.ravel()[k]), k, float(np.real(a.ravel()[k])),
+                                                                           float(np.real(b.ravel()[k])))
+            else:
+                det = "shapes %s / %s" % (a.shape, b.shape)
+            x = np.asarray(p["x"])
+            return ["%s with %s is not what the literal spelling (detrend=False, scale_by_freq=False) returns for the same data: %s"
+                    " (output %d; 'off' written in another way must change nothing; data mean %.3g, shape %s, NFFT=%s %s)" % (
+                        label, how, det, j, float(np.abs(np.mean(x))) if x.size else 0.0, x.shape, p.get("nfft"), _desc(p))]
+    return []
+
+
 def oracle_func(p):
-    return _oracle_vals(p, impl_func(p)[0], "speriodogram")
+    got = impl_func(p)
+    return _oracle_vals(p, got[0], "speriodogram") + _same_as_literal(p, got, impl_func, "speriodogram")
 
 
 def oracle_class(p):
-    return _oracle_vals(p, impl_class(p)[0], {"alias": "FourierSpectrum.periodogram() psd"}.get(p.get("call"), "Periodogram.psd"))
+    label = {"alias": "FourierSpectrum.periodogram() psd"}.get(p.get("call"), "Periodogram.psd")
+    got = impl_class(p)
+    return _oracle_vals(p, got[0], label) + _same_as_literal(p, got, impl_class, label)
 
 
 # ---- 2-D ------------------------------------------------------------------------------------------
@@ -408,8 +561,7 @@ def impl_2d(p):
     else:
         kw = dict(_nfft_kw(p))
         kw.update(_sampling_kw(p))
-        r = sp.speriodogram(_x2d(p), detrend=_DETREND[p.get("detrend", "False")],
-                            scale_by_freq=_SBF[p.get("sbf", "False")], window=p["window"], **kw)
+        r = _call_func(sp, _x2d(p), p, kw)
     r = np.asarray(r)
     if r.ndim != 2:
         raise ValueError("2-D input: result has %d dimensions" % r.ndim)
@@ -437,7 +589,7 @@ def oracle_2d(p):
                             "shape %s form=%s %s" % (x.shape, p.get("form", "array"), _desc(p)))
         if out:
             return out[:2]
-    return []
+    return _same_as_literal(p, got, impl_2d, label)
 
 
 def _tags_2d(p):
@@ -602,6 +754,39 @@ def _options(nrng, api):
         if c:
             q["call"] = c
     return q
+
+
+def _nzmean(nrng, N, cplx, i):
+    """records whose mean is far from zero (the flag cases: whether the mean is removed or not must be visible at every bin):
+    noise / a tone riding on a constant offset of 5, 30 or 1000 standard deviations, non-negative integer counts (integer dtype,
+    Python list of ints, or integer-valued floats), a constant, and now and then any class of gen_data.  Returns (x, tag)"""
+    t = i % 6
+    n = np.arange(N)
+    if t in (0, 3):
+        k = [5.0, 30.0, 1000.0][(i // 6) % 3]
+        amp = [1.0, 1.0, 2.0 ** -20, 2.0 ** 12][(i // 18) % 4]
+        if t == 0:
+            x = nrng.standard_normal(N) + (1j * nrng.standard_normal(N) if cplx else 0)
+        else:
+            f = float(nrng.uniform(0.05, 0.45))
+            ph = float(nrng.uniform(0, 6))
+            x = np.exp(1j * (2 * np.pi * f * n + ph)) if cplx else np.sqrt(2.0) * np.cos(2 * np.pi * f * n + ph)
+            x = x + 0.05 * nrng.standard_normal(N)
+        off = k * (np.exp(1j * float(nrng.uniform(0, 6))) if cplx else [1.0, -1.0][(i // 2) % 2])
+        return amp * (x + off), "offset"
+    if t in (1, 4):
+        lam = [3.0, 50.0, 1000.0][(i // 6) % 3]
+        c = nrng.poisson(lam, N).astype(np.int64)
+        if not np.any(c):
+            c[0] = 1
+        if cplx:
+            return c.astype(float) + 1j * nrng.poisson(lam, N), "counts"      # integer-valued complex samples
+        if t == 4:
+            return c, "counts-list"          # handed over as a Python list of ints (see _inp)
+        return (c, "counts") if (i // 6) % 2 == 0 else (c.astype(float), "counts")
+    if t == 2:
+        return gen_data(nrng, N, cplx, kind="const")
+    return gen_data(nrng, N, cplx, kind=["trend", "int", "noise", "intdtype", "list", "tone"][(i // 6) % 6])
 
 
 def _matrix(nrng, r, c, cplx, dkind, i):
@@ -842,3 +1027,90 @@ def gen(rng, nrng, tier):
         if (i // 4) % 2:
             q["ygiven"] = True
         yield ("wk", q)
+
+    # ---- (f) the way "off" is written ---------------------------------------------------------------------------------------
+    # Every case above passes detrend / scale_by_freq as a Python literal (False, None, 0).  Here the spelling of each flag is a
+    # generated dimension (_OFF: numpy.bool_ from a comparison / a boolean table, numpy scalars, 0, 0.0, 0-d array, None, False)
+    # for the function (1-D and 2-D), and for scale_by_freq of Periodogram / FourierSpectrum through the constructor or the
+    # attribute, on data whose mean is far from zero (so that a mean that IS removed shows at every bin).  The oracle is the
+    # property's own statement (every bin = |DFT(x*w)|^2/N, Parseval) plus "bit-identical to the literal spelling".
+    # New random draws come after all the older ones: the cases above are the same as before for a given seed.
+    L = len(_OFF)
+    stypes = ["int", "np.int64", "np.float32", "np.float64"]
+    n_ff = 66 if quick else 132
+    for i in range(n_ff):
+        N = int(nrng.integers(1, maxN + 1)) if i % 8 else [1, 2, 64, 100, 3, 128][(i // 8) % 6]
+        cplx = bool((i // 2) % 2)            # period 4 against the period 6 of the data classes: all 12 combinations
+        x, dk = _nzmean(nrng, N, cplx, i)
+        q = {"x": x, "dkind": dk, "nfft": nfft_choices(nrng, N), "window": names[(5 * i + 2) % len(names)], "flagcase": 1,
+             "detrend": _OFF[i % L], "sbf": _OFF[(5 * i + i // L + 3) % L]}        # 5 is prime to 11: the pairs change from row to row
+        if i % 6 == 5:
+            q["nfft"] = N
+            q["nfft_arg"] = ["None", "omit"][(i // 6) % 2]
+        if i % 4 == 1:
+            q["sampling"] = [2.0, 1024.0, 0.5, 48000.0][(i // 4) % 4]
+            q["sampling_type"] = stypes[(i // 4) % 4] if q["sampling"] != 0.5 else "np.float32"
+        if i % 5 == 2 and q.get("nfft_arg") != "omit":
+            q["argstyle"] = "pos"         # speriodogram(x, NFFT, detrend, sampling, scale_by_freq, window)
+        yield ("func", q)
+    LC = len(_OFF_CLASS)
+    n_fc = 50 if quick else 100
+    for i in range(n_fc):
+        N = int(nrng.integers(1, maxN + 1)) if i % 8 else [1, 2, 64, 100, 3, 128][(i // 8) % 6]
+        cplx = bool((i // 2) % 2)
+        x, dk = _nzmean(nrng, N, cplx, i + 1)
+        o = int(nrng.integers(0, 2 * 4 * 3 * 4))
+        q = {"x": x, "dkind": dk, "nfft": nfft_choices(nrng, N), "window": names[(7 * i + 4) % len(names)], "flagcase": 1,
+             "sbf": _OFF_CLASS[i % LC]}
+        if o % 2:
+            q["sbf_route"] = "attr"
+        o //= 2
+        if calls[o % 4]:
+            q["call"] = calls[o % 4]
+        o //= 4
+        if o % 3:
+            q["det_route"] = ["ctor", "attr"][o % 3 - 1]
+        o //= 3
+        if o == 0:
+            q["sampling"] = [2.0, 1024.0, 0.5, 48000.0][i % 4]
+            q["sampling_type"] = stypes[i % 4] if q["sampling"] != 0.5 else "np.float32"
+        elif o == 1:
+            q["nfft"] = N
+            q["nfft_arg"] = ["None", "omit"][i % 2]
+        if i % 5 == 2 and q.get("nfft_arg") != "omit" and not q.get("det_route"):
+            q["argstyle"] = "pos"         # constructor arguments in the documented order (differs between the two classes)
+        yield ("class", q)
+    n_f2 = 33 if quick else 66
+    for i in range(n_f2):
+        r = int(nrng.integers(2, 25)) if i % 5 else [1, 2, 64, 3][(i // 5) % 4]
+        c = int(nrng.integers(1, 5))
+        cplx = bool((i // 2) % 2)
+        if i % 4 == 1 and not cplx:
+            x = nrng.poisson([3.0, 50.0, 1000.0][(i // 4) % 3], (r, c)).astype(np.int64)       # a table of counts, integer dtype
+            if not np.any(x):
+                x[0, 0] = 1
+        else:
+            cols = [np.asarray(_nzmean(nrng, r, cplx, [0, 3, 2, 0, 3, 1][(i + j) % 6] + 6 * (i + j))[0]) for j in range(c)]
+            x = np.stack([np.asarray(v, dtype=complex if cplx else float) for v in cols], axis=1)
+        api = "class" if i % 3 == 2 else "func"
+        q = {"x": x, "dkind": "nzmean", "nfft": nfft_choices(nrng, r), "window": names[(11 * i + 1) % len(names)], "flagcase": 1,
+             "form": ["array", "list", "fortran", "tview"][(i // 3) % 4]}
+        if api == "class":
+            q["api"] = "class"
+            q["sbf"] = _OFF_CLASS[(i // 3) % LC]
+            o = int(nrng.integers(0, 2 * 4 * 3))
+            if o % 2:
+                q["sbf_route"] = "attr"
+            if calls[(o // 2) % 4]:
+                q["call"] = calls[(o // 2) % 4]
+            if (o // 8) % 3:
+                q["det_route"] = ["ctor", "attr"][(o // 8) % 3 - 1]
+        else:
+            q["detrend"] = _OFF[i % L]
+            q["sbf"] = _OFF[(5 * i + 7) % L]
+            if i % 7 == 3:
+                q["nfft"] = r
+                q["nfft_arg"] = ["None", "omit"][(i // 7) % 2]
+            elif i % 5 == 1:
+                q["argstyle"] = "pos"
+        yield ("twod", q)
